@@ -127,6 +127,26 @@ def varopt(facts):
         adds = [x for x in t if x.startswith("(n_+=")]
         ok = t[:1] == ["if(sketch.n_==0)"] and adds == ["(n_+=sketch.n_)"]
         out.append(ob("varopt.union", "var_opt_union::merge_items(%s):n-accounting" % form, f["pat"], "discharged" if ok else "violated", "an empty input is a no-op; otherwise n_ += sketch.n_ exactly once" if ok else "union accounting of n is %s / first statement %s" % (adds, t[:1]), f["qname"]))
+    # union: the running outer tau accumulates a reservoir only when its tau EQUALS the current outer tau
+    rt = [g for g in fs.values() if g.get("rect") == U and g["name"] == "resolve_tau" and g.get("body") is not None]
+    for f in rt:
+        acc_ = []
+        walkp(f["body"], lambda x, ps: acc_.append((x, [p for p in ps if p.get("k") == "If"])) if x.get("k") == "Assign" and x.get("op") == "+=" and is_this_field(x["l"], ("outer_tau_numer_", "outer_tau_denom_")) else None)
+        ok = bool(acc_)
+        why = "no accumulation of outer_tau_numer_ / outer_tau_denom_ found"
+        for x, ifs in acc_:
+            inner = ifs[-1] if ifs else None
+            # the accumulation must sit in the THEN branch of an `==` test between the two taus
+            good = False
+            if inner is not None:
+                c = strip_all(inner["c"])
+                inthen = [False]
+                walk(inner.get("t"), lambda y: inthen.__setitem__(0, True) if y is x else None)
+                good = inthen[0] and c.get("k") == "Bin" and c.get("op") == "==" and "tau" in txt(c)
+            if not good:
+                ok = False
+                why = "`%s` is not guarded by an equality test of the sketch's tau and the outer tau (guard: %s): a reservoir with a SMALLER tau is pooled into the outer tau, get_result() then takes the pseudo-exact shortcut and items sampled at different thresholds share one averaged weight (subset sums biased)" % (txt(x), txt(inner["c"]) if inner is not None else "else-branch / none")
+        out.append(ob("varopt.union", "var_opt_union::resolve_tau:accumulate-only-on-equal-tau", f["pat"], "discharged" if ok else "violated", "outer tau is replaced by a larger tau, accumulated on an equal tau, untouched by a smaller one" if ok else why, f["qname"]))
     return out
 
 
